@@ -58,7 +58,9 @@ FreeAns == [st |-> "free", kind |-> "", tag |-> 0 - 1, cap |-> "", exps |-> <<>>
 \*      fwd     tags of received calls the connection forwarded to an import, in send order
 \*      fwdres  what the peer answered to forwarded calls: <<tag, kind, result tag>>
 \*      req     Disembargo senderLoopback received and not yet echoed: <<embargo id, answer id, tags that must be forwarded first>>
-FreeEmb == [lseq |-> <<>>, out |-> {}, held |-> {}, ptgt |-> {}, fwd |-> <<>>, fwdres |-> {}, req |-> {}]
+\*      conc    pairs <<t1, t2>>: local call t1 was being held back when t2 was made (the two were made concurrently, SendCall of t1
+\*              had not returned): no order is defined between them
+FreeEmb == [lseq |-> <<>>, out |-> {}, held |-> {}, ptgt |-> {}, fwd |-> <<>>, fwdres |-> {}, req |-> {}, conc |-> {}]
 Fresh == /\ ans = [i \in Ids |-> FreeAns] /\ exp = [i \in Ids |-> [cap |-> "", wire |-> 0]]
          /\ qst = [i \in Ids |-> "free"] /\ qtag = [i \in Ids |-> 0 - 1] /\ qrel = [i \in Ids |-> FALSE] /\ imp = [i \in Ids |-> 0] /\ lh = {}
          /\ started = <<>> /\ callseq = <<>> /\ appret = {} /\ shut = <<>> /\ caps = {"B"} /\ lres = {} /\ pret = {}
@@ -244,7 +246,7 @@ AppStart == /\ Ev("app-start") /\ Consume
             \* (whether they travelled through the peer or were delivered locally), and none under embargo is delivered
             /\ E.tag \notin emb.held
             /\ \A i, j \in 1..Len(emb.lseq) :
-                  (i < j /\ emb.lseq[j][2] = E.tag /\ emb.lseq[i][1] = emb.lseq[j][1]) =>
+                  (i < j /\ emb.lseq[j][2] = E.tag /\ emb.lseq[i][1] = emb.lseq[j][1] /\ <<emb.lseq[i][2], E.tag>> \notin emb.conc) =>
                      ((\E s \in Range(started) : s[2] = emb.lseq[i][2]) \/ Resolved(emb.lseq[i][2]))
             /\ started' = Append(started, <<E.cap, E.tag>>)
             /\ Keep(<<ans, exp, qst, qtag, qrel, imp, lh, callseq, appret, shut, caps, lres, pret, closed, aborted, emb>>)
@@ -252,7 +254,8 @@ AppReturn == /\ Ev("app-return") /\ Consume
              /\ appret' = appret \cup {<<E.tag, E.kind, E.cap, E.e>>}
              /\ caps' = IF E.cap # "" THEN caps \cup {E.cap} ELSE caps
              \* the new capability is held by the answer from now on
-             /\ ans' = [i \in Ids |-> IF ans[i].st = "open" /\ ans[i].kind = "call" /\ ans[i].tag = E.tag /\ E.cap # ""
+             \* (a connection that is closing keeps nothing: results produced after Close are dropped at once)
+             /\ ans' = [i \in Ids |-> IF ans[i].st = "open" /\ ans[i].kind = "call" /\ ans[i].tag = E.tag /\ E.cap # "" /\ ~closed
                                       THEN [ans[i] EXCEPT !.cap = E.cap] ELSE ans[i]]
              /\ Keep(<<exp, qst, qtag, qrel, imp, lh, started, callseq, shut, lres, pret, closed, aborted, emb>>)
 \* Shutdown of an instrumented capability: at most once and only when nothing holds it
@@ -273,7 +276,8 @@ LRelease == /\ Ev("l-release") /\ Consume
 \* call is held until the echo arrives
 LPCall == /\ Ev("l-pcall") /\ Consume
           /\ emb' = [emb EXCEPT !.lseq = Append(@, <<E.on, E.tag>>),
-                                 !.held = IF \E x \in emb.out : x[2] = E.on THEN @ \cup {E.tag} ELSE @]
+                                 !.held = IF \E x \in emb.out : x[2] = E.on THEN @ \cup {E.tag} ELSE @,
+                                 !.conc = @ \cup { <<t, E.tag>> : t \in emb.held }]
           /\ Keep(<<ans, exp, qst, qtag, qrel, imp, lh, started, callseq, appret, shut, caps, lres, pret, closed, aborted>>)
 LocalResult == /\ Ev("l-result") /\ Consume
                /\ (E.tag \in LTags /\ E.kind = "ok") => E.n = E.tag        \* every method body answers with its call's tag
